@@ -6,6 +6,30 @@ ALL = ["C%02d" % i for i in range(1, 21)]
 
 # id -> (technique, level text, level note, design ref)
 CHECKS = {
+ "C01": ("property-based testing: stratified generated perturbation of accepted instances (rapid) + reference-labelled description edits; exhaustive position sweep in thorough",
+         "Every kind of leaf of real accepted proofs (and of their query-round-prefix restrictions) is perturbed in five ways per stratum (leaf kind x round bucket x list position), the other inner circuit's key is substituted, and ~390 single-constant edits of the circuit description are labelled by the independent reference verifier; the whole VerifierCircuit is evaluated on the adversarial engine and must never ACCEPT. Detects unbound data (missing Merkle/transcript/round checks, ignored constants); weakened algebraic identities are the business of C11-C16 (Fiat-Shamir re-randomises honest-proof perturbations).",
+         "Trusts the reference verifier for labelling description edits and the engine's API semantics; candidates for a wrong ACCEPT are re-run under bit decomposition before being reported.",
+         "DESIGN.md section 4 (C01)"),
+ "C02": ("generated configuration sweep (proof x prefix x range-check flavour x wrapper) with differential cross-check against gnark's engine and an interval-bound invariant monitor",
+         "All five real proofs, their k-round prefixes, three range-check flavours (plus the forcing env var), both wrappers and gnark's own test engine must ACCEPT; a bound monitor checks over one execution per inner circuit that at all ~190k witnessed reductions the largest honest operand fits the enforced quotient width.",
+         "Completeness for all valid proofs is limited to 5 real proofs and their 140 prefixes (no plonky2 prover offline). Monitor transfer functions are part of the trusted base.",
+         "DESIGN.md section 4 (C02)"),
+ "C03": ("property-based testing (rapid) of the wrapper with generated limb/value assignments against an integer oracle, plus interval-bound invariant on the packing equality",
+         "Generated limb vectors (true limbs, limb+k*p, arbitrary, oversized) and public values (packing of supplied limbs, of true limbs, random, +2^128) are evaluated on CircuitFixed built through the repository's compile-path constructor; ACCEPT iff limbs and values are exactly the true ones. A monitored run requires the packing equalities to be wrap-free and < 2^128 for all admissible limb values.",
+         "Solidity truncation is read, not executed. Only circuit-A instances have 16 public inputs.",
+         "DESIGN.md section 4 (C03)"),
+ "C04": ("property-based testing (rapid + enumeration of every unselected cap entry) of wrappers built through the repository's compile-path constructors",
+         "Wrappers are built by the very constructors cmd/compile.go and CompileVerifierCircuit use (exported under the verif tag), then evaluated with proving-time keys that differ in one element (+1/random/zero; every cap entry no query selects, found with the reference verifier), are the other circuit's key or random; ACCEPT iff the key equals the template's; controls require the right key and other proofs of the same circuit to be accepted.",
+         "Trusts ref for the selected-slot computation; engine API semantics.",
+         "DESIGN.md section 4 (C04)"),
+ "C06": ("property-based testing (rapid) with an integer oracle, differential across evaluation-engine flavours, gnark's test engine and compiled R1CS/SCS systems, with dishonest limb hints",
+         "Boundary-heavy generated values x {RangeCheck, RangeCheckWithMaxBits(n)} x {native / commit / bit decomposition / forced} on the engine, on gnark's own engine and on compiled R1CS and SCS systems (commit mode padded to the 16-bit regime); accepted iff in range, also when the limb hint is replaced by dishonest outputs.",
+         "gnark v0.9.1 solver and std/rangecheck trusted as shipped; native-range-checker builder is a thin wrapper doing bit decomposition.",
+         "DESIGN.md section 4 (C06)"),
+ "C17": ("exhaustive enumeration of leaf positions x generated offsets against a must-not-accept oracle",
+         "Every Goldilocks-valued leaf of the proof is replaced by value + k*p (k in {1,2,2^64,kmax}); the whole verifier must not ACCEPT. Quick enumerates all 10.9k positions of one proof (k=1) plus strided samples of the others; thorough enumerates all positions x 4 offsets x 5 proofs (exhaustive over positions).",
+         "Native engine flavour has exact range semantics (C06); candidates are re-checked under bit decomposition.",
+         "DESIGN.md section 4 (C17)"),
  "C07": ("property-based testing (rapid) with a native reference model; exhaustive edge-triple enumeration",
          "Generated operand triples (all 343 edge combinations + thousands of random ones) are pushed through every base-field gadget on an adversarial evaluation engine under two range-check flavours and compared with independent uint64 Goldilocks arithmetic; reduce inputs are drawn on both sides of the 2^b*p limit. Exploration, not proof: it shows agreement on everything generated.",
          "Trusts the engine's frontend.API semantics (cross-validated against gnark's test engine and compiled R1CS/SCS in C06) and ref's 60-line field arithmetic (validated by real-proof acceptance).",
